@@ -352,8 +352,11 @@ Definition propose_eliminations (funcs : list prov) : list nat :=
   let keepDown := keep_closure fuel true [flowk_code FIn; flowk_code FBypass] funcs roots [] in
   let keepUp := keep_closure fuel false [flowk_code FRecv] funcs roots [] in
   let kept := keepDown ++ keepUp in
+  let cand := filter (fun i => negb (memb i kept) && negb (flagp p_shun funcs i)) idx in
+  (* the synthetic (Debugging) provider is tried last *)
   filter (flagp p_shun funcs) idx ++
-  filter (fun i => negb (memb i kept) && negb (flagp p_shun funcs i)) idx.
+  filter (fun i => negb (flagp (fun p => s_synthetic (p_s p)) funcs i)) cand ++
+  filter (flagp (fun p => s_synthetic (p_s p)) funcs) cand.
 
 (* ---------- tryWithout ---------- *)
 Definition try_without (te : tyenv) (funcs : list prov) (without : list nat) : list prov :=
@@ -421,6 +424,13 @@ Definition select (te : tyenv) (funcs0 : list prov) : res (list prov) :=
           if p_excluded p then fs
           else if negb (p_cluster p =? 0) then
             match p_members p with Some m => try_without te fs m | None => fs end
+          else if s_synthetic (p_s p) && negb (p_shun p) then
+            (* the Debugging provider goes only when none of the providers asking for it remains *)
+            let users := filter (fun u => flagp (fun q => negb (p_wanted q) && negb (p_excluded q)) fs u)
+                                (usedBy (p_deps p)) in
+            let fs1 := fold_left (fun f u => updp u (set_wanted true) f) users fs in
+            let fs2 := try_without te fs1 [i] in
+            fold_left (fun f u => updp u (set_wanted false) f) users fs2
           else try_without te fs [i]
         end) proposal funcs6 in
     let funcs8 := map (fun p => if negb (p_excluded p) then set_cannot false p
